@@ -72,8 +72,9 @@ def parse_stdout(text, prefix=""):
             if not in_header:
                 cur = None
             else:
-                in_header = False
-                cur = None
+                # a blank line before any location / note line: the message itself contains an empty line (e.g. a quoted token
+                # that spans lines); the diagnostic goes on until its location, its notes, the next header or the next log line
+                cur["msg"] += "\n"
             continue
         m = LOC.match(line)
         if m:
@@ -92,6 +93,9 @@ def parse_stdout(text, prefix=""):
             # continuation of a multi-line message
             cur["msg"] += "\n" + line.replace(prefix, "")
             continue
+    for e in events:
+        if e["e"] == "diag":
+            e["msg"] = e["msg"].rstrip("\n")
     return events
 
 
